@@ -19,7 +19,7 @@ package crhttp
 // C17: the JSON rendering covers every option kind CoreRAD can advertise
 // (optsKnown is exactly what the Plugin.Apply contracts can produce).
 //@ func packOptions
-//@   requires P1: optsKnown(opts) && forall(k, 0, len(opts), isType(opts[k], "*ndp.RouteInformation") ==> prefValid(as(opts[k], "*ndp.RouteInformation").Preference))
+//@   requires P1: optsKnown(opts)
 //@   assigns new mem(crhttp.dnssl), new mem(crhttp.prefix), new mem(crhttp.rdnss), new mem(crhttp.route), new mem(crhttp.pref64), new mem(string)
 //@   loop 1 invariant L1 [C17]: 0 <= rangeindex + 1 && rangeindex + 1 <= len(opts)
 //@   loop 2 invariant L2 [C17]: 0 <= rangeindex2 + 1 && rangeindex2 + 1 <= len(ranged(2)) && 0 <= rangeindex1 + 1 && rangeindex1 + 1 < len(opts)
@@ -27,7 +27,7 @@ package crhttp
 //@   opt frame [C17]
 
 //@ func packRA
-//@   requires P1: ra != nil && prefValid(ra.RouterSelectionPreference) && optsKnown(ra.Options) && forall(k, 0, len(ra.Options), isType(ra.Options[k], "*ndp.RouteInformation") ==> prefValid(as(ra.Options[k], "*ndp.RouteInformation").Preference))
+//@   requires P1: ra != nil && prefValid(ra.RouterSelectionPreference) && optsKnown(ra.Options)
 //@   requires P2: 0 <= ra.RouterLifetime && ra.RouterLifetime <= secs(9000) && 0 <= ra.ReachableTime && ra.ReachableTime <= secs(3600) && 0 <= ra.RetransmitTimer && ra.RetransmitTimer <= secs(3600)
 //@   assigns new heap(crhttp.routerAdvertisement), new mem(crhttp.dnssl), new mem(crhttp.prefix), new mem(crhttp.rdnss), new mem(crhttp.route), new mem(crhttp.pref64), new mem(string)
 //@   ensures E1 [C17]: result != nil && result.CurrentHopLimit == ra.CurrentHopLimit && result.ManagedConfiguration == ra.ManagedConfiguration && result.OtherConfiguration == ra.OtherConfiguration
@@ -45,3 +45,21 @@ package crhttp
 //@   ensures R5 [C17]: result.ifaces == cfg.Interfaces && result.state == state
 //@   opt safety [C17]
 //@   opt frame [C17]
+
+//@ func (*Handler).errorf
+//@   opt trusted writes an HTTP 500 response and a log line
+
+//@ iface http.ResponseWriter.Header(self) (h)
+//@ lib (net/http.Header).Set(h, key, value)
+//@ lib encoding/json.NewEncoder(w) (enc)
+//@   ensures E1: enc != nil
+//@ lib (*encoding/json.Encoder).Encode(enc, v) (err)
+
+// Debug API: per advertising interface, regenerate the RA with the live
+// forwarding state and render it.
+//@ func (*Handler).interfaces
+//@   requires P1: h.state != nil && w != nil && forall(i, 0, len(h.ifaces), ifiCfgOK(h.ifaces[i]))
+//@   assigns everything
+//@   loop 1 invariant L1 [C17,C04]: 0 <= rangeindex + 1 && rangeindex + 1 <= len(h.ifaces) && h.state != nil && w != nil && forall(i, 0, len(h.ifaces), ifiCfgOK(h.ifaces[i])) && len(body.Interfaces) == rangeindex + 1
+//@   at call packRA(pra): assert A1 [C17,C04]: pra != nil && pra.RouterLifetime == ite(ghost.fwdVal, iface.DefaultLifetime, 0) && ghost.fwdName == iface.Name && raHeaderFrom(pra, iface)
+//@   opt safety [C17]
